@@ -140,6 +140,19 @@ CLAIMED = {
         note='Trusted: syn parse. One known finding listed in known_findings.json.',
         technique='static analysis: loop-carried-state and early-exit analysis, post-loop decision-sequence extraction on the syntax tree',
         design='2/C05'),
+    'C01': dict(
+        level='other',
+        text='Necessary structural conditions of the checker/evaluator contract, each decided for ALL instances: call typing and the type '
+             'relations (the C04 rules); for every one of the 286 native registrations, the declared spec against what the closure does with its '
+             'arguments (constant argument indices within the required arity or under an args.len() test / args.get, to_primitive!/to_native! '
+             'downcasts equal to the declared parameter type class, constructed result variants equal to the declared primitive return type): '
+             '~800 facts; every explicit panic of the evaluator listed with the checker obligation that discharges it; every checked unsigned '
+             'subtraction in builtins guarded by a dominating comparison of the same operands or listed with a reason (and, where the reason is '
+             'a match arm, revalidated structurally); list-shaped owning links have an iterative Drop. NOT decided: soundness of the type rules '
+             'for all programs, absence of all panics (index/library panics, multiplication overflow).',
+        note='Trusted: rustc MIR, syn; the reasons in EVAL_PANICS / SUB_OK (rules/c01.py). Three known findings (combinatorics on usize) in known_findings.json.',
+        technique='static analysis: registration-vs-closure table agreement on the syntax tree; dominating-guard recognition on MIR asserts; panic inventory; ADT shape audit',
+        design='2/C01'),
 }
 
 NA_REASONS = {
